@@ -139,7 +139,7 @@ def run(ctx):
     early = [x for x in early if not (x.get("k") == "break" and next((a for a in f.ancestors(x) if a.get("k") in ("switch", "for", "forrange", "while", "do")), None) is not lp)]
     r.check(not early, "processDiscoveredDependencies|all-files-processed", "", "the loop over the dependency files can be left without a failure before the last file: what "
             "only a later file names is never registered", f, early[0] if early else None)
-    gets = f.calls("getFileContents")
+    gets = f.calls("getFileContents") or [c for l_ in prog.lambdas_of(f) for c in l_.calls("getFileContents")]     # (the read may sit in a local lambda)
     rets_false = [x for x in f.nodes if x.get("k") == "return" and core(x.child("e")).get("v") is False]
     ok = any(any(a == "input.operator bool()" and not p for a, p in (bf.at_node(x) or frozenset())) for x in rets_false)
     r.check(bool(gets) and ok, "processDiscoveredDependencies|missing-file-fails", "", "a dependency file that cannot be read does not fail the command", f)
